@@ -224,6 +224,10 @@ let crt_case toks =
       let out m s = Buffer.add_string mb m; Buffer.add_char mb ' '; Buffer.add_string sb s; Buffer.add_char sb ' ' in
       (match op with
        | "lift" -> for i = 0 to n - 1 do let r = coef_res 0 i in out (model_lift r) (Z.to_string (spec_lift r)) done
+       | "lift_inplace" ->
+           for i = 0 to n - 1 do let r = coef_res 0 i in out (model_lift r) (Z.to_string (spec_lift r)) done;
+           out "|" "|";
+           for i = 0 to n - 1 do let r = coef_res 0 i in out (model_lift r) (Z.to_string (spec_lift r)) done
        | "unlift" ->
            for cm = 0 to nm - 1 do for i = 0 to n - 1 do
              let m = if with_model then str (List.nth (M.mpz2poly_coef ps (cz_of_zz zw.(i))) cm) else "?" in
